@@ -54,9 +54,10 @@ HOSTILE = {
                  'utf-7', 'hex', 'base64', 'rot13', 'zlib', 'unicode-escape',
                  'raw-unicode-escape', 'undefined', 'mbcs', 'punycode',
                  'utf-8-sig', 'cp037', 'bz2', 'uu', 'quopri'],
-    'line_endings': ['mac', 'dos', 'unix', 'DOS', '5'],
-    'format': ['yaml', 'json', 'JSON', '5'],
-    'version': ['2.0', '1', '1.0', 'abc', '5'],
+    'line_endings': ['mac', 'dos', 'unix', 'DOS', '5', '%s', '%d', '{}',
+                     '{0}', '%', 'u' * 3000],
+    'format': ['yaml', 'json', 'JSON', '5', '%s', '{x}', '%(a)s'],
+    'version': ['2.0', '1', '1.0', 'abc', '5', '%s', '{}', '1.0%'],
     'type': ['binary', 'text', 'x', '5', '7' * 4400],
     'mimetype': ['text/html', 'x', '5'],
     # header lines longer than one read-ahead block
